@@ -14,7 +14,7 @@ import (
 	"verif/harness/spec"
 )
 
-var c09Endings = []string{"disconnect", "abrupt", "keepalive", "reserved-type", "bad-flags", "read-error", "oversized", "disconnect-with-eof", "ping-with-eof"}
+var c09Endings = []string{"disconnect", "abrupt", "keepalive", "reserved-type", "bad-flags", "read-error", "oversized", "disconnect-with-eof", "ping-with-eof", "disconnect-bad-flags"}
 
 type willSpec struct {
 	present bool
@@ -186,7 +186,16 @@ func c09History(t *testing.T, idx int, seed uint64) {
 			case "reserved-type":
 				c.Send([]byte{byte([]int{0x00, 0xf0}[r.Intn(2)]), 0x00})
 			case "bad-flags":
-				c.Send([]byte{0x80, 0x05, 0x00, 0x01, 0x00, 0x01, 'a'}) // SUBSCRIBE with flags 0
+				// a packet that is well-formed except for the reserved bits of its fixed header
+				c.Send([][]byte{
+					{0x80, 0x06, 0x00, 0x01, 0x00, 0x01, 'a', 0x00}, // SUBSCRIBE with flags 0
+					{0xc1, 0x00},             // PINGREQ with flags 1
+					{0x42, 0x02, 0x00, 0x01}, // PUBACK with flags 2
+					{0xa0, 0x05, 0x00, 0x01, 0x00, 0x01, 'a'}, // UNSUBSCRIBE with flags 0
+				}[r.Intn(4)])
+			case "disconnect-bad-flags":
+				// the type is DISCONNECT, the reserved bits are not 0: a protocol error, not the client's DISCONNECT
+				c.Send([]byte{0xe0 | byte(1+r.Intn(15)), 0x00})
 			case "read-error":
 				c.Send([]byte{0xc0, 0x00, 0xc0, 0x00, 0xc0, 0x00, 0xc0, 0x00})
 			case "oversized":
